@@ -110,11 +110,11 @@ theorem cached_prior_unfold (k : Kind) (ft : FnType) (acc : Access) (bk : BodyKi
     (hk : k = .alru ∨ k = .acpi) :
     modelCvRun (Env.quiet keyOf hf rs) ⟨k, ft, acc, bk⟩ .prior a rel =
       ⟨[.val ⟨1, refArgsSib ft acc rel a, false⟩],
-       (Res.task
+       (Res.drive
          (match dictFind hf (if rs then [] else [((1, keyOf (refArgsSib ft acc rel a)), ⟨1, refArgsSib ft acc rel a, false⟩)])
                 (1, keyOf (refArgs ft acc 0 a)) with
-          | some r => Res.val r
-          | none => Res.val ⟨1, refArgs ft acc 0 a, false⟩)).value, false⟩ := by
+          | some r => Res.gen (.val r)
+          | none => Res.gen (.val ⟨1, refArgs ft acc 0 a, false⟩))).value, false⟩ := by
   rcases hk with rfl | rfl <;> cases rs <;> cases ft <;> cases acc <;> cases bk <;> cases rel <;>
     first | rfl | (simp [supported] at h)
 
@@ -140,9 +140,9 @@ theorem asynq_env_free (k : Kind) (ft : FnType) (acc : Access) (bk : BodyKind) (
 theorem cached_asynq_unfold (k : Kind) (ft : FnType) (acc : Access) (bk : BodyKind) (a : Args) (env : Env)
     (h : supported k ft acc = true) (hk : k = .alru ∨ k = .acpi) :
     app env .asynq (Cell.callable ⟨k, ft, acc, bk⟩) (callerArgs ft acc 0 a) =
-      Res.task (match env.cacheLookup (1, env.keyOf (refArgs ft acc 0 a)) with
-                | some r => Res.val r
-                | none => Res.val ⟨1, refArgs ft acc 0 a, false⟩) := by
+      Res.drive (match env.cacheLookup (1, env.keyOf (refArgs ft acc 0 a)) with
+                 | some r => Res.gen (.val r)
+                 | none => Res.gen (.val ⟨1, refArgs ft acc 0 a, false⟩)) := by
   rcases hk with rfl | rfl <;> cases ft <;> cases acc <;> cases bk <;> first | rfl | (simp [supported] at h)
 
 theorem asynq_other_keys (k : Kind) (ft : FnType) (acc : Access) (bk : BodyKind) (a : Args) (env : Env)
@@ -222,5 +222,111 @@ theorem modelReport_eq_ref (c : Case) (h : supported c.cell.kind c.cell.ft c.cel
     (fun hi => refArgsSib_ne ft acc rel args hi)
   simp only [Env.quiet] at this
   simp only [Case.env, this]
+
+/-! ### own entries in the tables (put there by earlier calls of the same function), body kinds, arbitrary receivers -/
+
+
+
+theorem dictFind_some (hf : Nat → Nat) (l : Table) (k : Nat × Args) (r : Reach) (h : dictFind hf l k = some r) :
+    ∃ e ∈ l, e.1 = k ∧ e.2 = r := by
+  rw [dictFind_eq] at h
+  cases hfind : l.find? (fun e => decide (e.1 = k)) with
+  | none => rw [hfind] at h; cases h
+  | some e =>
+    rw [hfind] at h
+    simp only [Option.map_some, Option.some.injEq] at h
+    refine ⟨e, List.mem_of_find?_eq_some hfind, ?_, h⟩
+    have := List.find?_some hfind
+    simpa using this
+
+/-- an entry found under the key of this very call in a consistent table is the task / the value of THIS call -/
+theorem own_entry (keyOf : Args → Args) (hf : Nat → Nat) (t : Table) (x : Args) (r : Reach)
+    (hsep : Table.separates keyOf x t) (ht : Table.ownConsistent keyOf t)
+    (h : dictFind hf t (1, keyOf x) = some r) : r = ⟨1, x, false⟩ := by
+  obtain ⟨⟨⟨i, key⟩, ⟨b, args, w⟩⟩, he, hk, rfl⟩ := dictFind_some hf t _ r h
+  simp only [Prod.mk.injEq] at hk
+  obtain ⟨rfl, rfl⟩ := hk
+  obtain ⟨hb, hw, hkey⟩ := ht _ he rfl
+  simp only at hb hw hkey
+  subst hb hw
+  have := hsep _ he rfl hkey.symm
+  simp only at this
+  rw [this]
+
+theorem separates_of_injective (keyOf : Args → Args) (x : Args) (t : Table)
+    (hinj : ∀ y, keyOf y = keyOf x → y = x) : Table.separates keyOf x t :=
+  fun e _ _ hk => hinj e.2.args hk
+
+theorem separates_of_foreign (keyOf : Args → Args) (x : Args) (t : Table) (h : ∀ e ∈ t, e.1.1 ≠ 1) :
+    Table.separates keyOf x t ∧ Table.ownConsistent keyOf t :=
+  ⟨fun e he h1 => absurd h1 (h e he), fun e he h1 => absurd h1 (h e he)⟩
+
+theorem asynq_own_entries (k : Kind) (ft : FnType) (acc : Access) (bk : BodyKind) (a : Args) (env : Env)
+    (h : supported k ft acc = true) (hk : k.hasAsynq = true)
+    (hst : Table.separates env.keyOf (refArgs ft acc 0 a) env.tasks)
+    (hsc : Table.separates env.keyOf (refArgs ft acc 0 a) env.cache)
+    (ht : Table.ownConsistent env.keyOf env.tasks) (hc : Table.ownConsistent env.keyOf env.cache) :
+    app env .asynq (Cell.callable ⟨k, ft, acc, bk⟩) (callerArgs ft acc 0 a) =
+      .fut ⟨1, refArgs ft acc 0 a, k.userWrapped⟩ := by
+  by_cases hd : k = .dedup
+  · subst hd
+    rw [dedup_asynq_unfold ft acc bk a env h]
+    unfold Env.lookup
+    cases hl : dictFind env.hashOf env.tasks (1, env.keyOf (refArgs ft acc 0 a)) with
+    | none => rfl
+    | some r => rw [own_entry env.keyOf env.hashOf env.tasks _ r hst ht hl]; rfl
+  · by_cases hc' : k = .alru ∨ k = .acpi
+    · rw [cached_asynq_unfold k ft acc bk a env h hc']
+      unfold Env.cacheLookup
+      cases hl : dictFind env.hashOf env.cache (1, env.keyOf (refArgs ft acc 0 a)) with
+      | none => rcases hc' with rfl | rfl <;> rfl
+      | some r =>
+        rw [own_entry env.keyOf env.hashOf env.cache _ r hsc hc hl]
+        rcases hc' with rfl | rfl <;> rfl
+    · exact asynq_env_free k ft acc bk a env h hk
+        ⟨hd, fun hh => hc' (Or.inl hh), fun hh => hc' (Or.inr hh)⟩
+
+/-- the body kind (plain function / generator function / generator blocking on a batch) of a DECORATED callable never
+    shows: `_call_pure` runs a generator object (needs_wrapper) and wraps a plain function in `_fn_wrapper`, and both
+    paths end in the same future -/
+theorem bk_irrelevant (k : Kind) (ft : FnType) (acc : Access) (bk bk' : BodyKind) (cv : Cv) (a : Args)
+    (keyOf : Args → Args) (hf : Nat → Nat) (rs : Bool) (rel : Rel)
+    (h : supported k ft acc = true) (hk : k ≠ .raw)
+    (hkey : identicalSib ft acc rel a = false → keyOf (refArgsSib ft acc rel a) ≠ keyOf (refArgs ft acc 0 a)) :
+    modelCv (Env.quiet keyOf hf rs) ⟨k, ft, acc, bk⟩ cv a rel = modelCv (Env.quiet keyOf hf rs) ⟨k, ft, acc, bk'⟩ cv a rel := by
+  rw [modelCv_eq_ref_all k ft acc bk cv a keyOf hf rs rel h hkey, modelCv_eq_ref_all k ft acc bk' cv a keyOf hf rs rel h hkey]
+  have hr : ∀ b, Cell.rawGen ⟨k, ft, acc, b⟩ = false := by
+    intro b; cases k <;> first | rfl | exact absurd rfl hk
+  unfold refCv refCvRun Cell.refVal
+  simp only [hr]
+
+
+
+
+theorem any_receiver_asynq (k : Kind) (ft : FnType) (bk : BodyKind) (owner : Option Nat) (cls : Nat) (a : Args)
+    (keyOf : Args → Args) (hs : supported k ft .inst = true) (hk : k.hasAsynq = true)
+    (hself : k = .acpi → pyPrefix ft owner cls ++ a.pos ≠ []) :
+    app (Env.idle keyOf) .asynq (descrGet (build k ft bk false) owner cls) a =
+      .fut ⟨1, { a with pos := pyPrefix ft owner cls ++ a.pos }, k.userWrapped⟩ := by
+  obtain ⟨pos, kw⟩ := a
+  cases k <;> first
+    | (simp [Kind.hasAsynq] at hk; done)
+    | (cases ft <;> cases bk <;> cases owner <;> first | rfl | (simp [supported] at hs; done))
+    | (cases ft <;> cases bk <;> cases owner <;> cases pos <;>
+         first | rfl | (simp [supported] at hs; done) | (simp [pyPrefix] at hself; done))
+
+theorem any_receiver_call (k : Kind) (ft : FnType) (bk : BodyKind) (owner : Option Nat) (cls : Nat) (a : Args)
+    (keyOf : Args → Args) (hs : supported k ft .inst = true)
+    (hself : k = .acpi → pyPrefix ft owner cls ++ a.pos ≠ []) :
+    app (Env.idle keyOf) .call (descrGet (build k ft bk false) owner cls) a =
+      (if k.pureLike then .fut ⟨1, { a with pos := pyPrefix ft owner cls ++ a.pos }, false⟩
+       else Cell.refVal ⟨k, ft, .inst, bk⟩
+              ⟨if k.hasSyncFn then 2 else 1, { a with pos := pyPrefix ft owner cls ++ a.pos }, k.userWrapped⟩) := by
+  obtain ⟨pos, kw⟩ := a
+  cases k <;> first
+    | (cases ft <;> cases bk <;> cases owner <;> first | rfl | (simp [supported] at hs; done))
+    | (cases ft <;> cases bk <;> cases owner <;> cases pos <;>
+         first | rfl | (simp [supported] at hs; done) | (simp [pyPrefix] at hself; done))
+
 
 end AsynqModel.Decorators
